@@ -140,6 +140,9 @@ func genC12(t *rapid.T) CaseC12 {
 			for j := 0; j < nlen; j++ {
 				p.New = append(p.New, rapid.SampledFrom([]string{"n1", "n2", "n3", "q", "n1", "n2", "a", "b", "k", "list", "sub", "items"}).Draw(t, "nkey"))
 			}
+			if rapid.IntRange(0, 15).Draw(t, "rawnew") == 7 {
+				p.New[nlen-1] = rapid.SampledFrom([]string{"BYTES-E9", "BYTES-E8", "BYTES-C3"}).Draw(t, "rawkey")
+			}
 			if nlen >= 2 && !hasWildcard(p.Old) && rapid.IntRange(0, 5).Draw(t, "attrnew") == 0 {
 				// the last member of a new path may be an attribute key or the text key
 				p.New[nlen-1] = rapid.SampledFrom([]string{"-id", "#text", "-n"}).Draw(t, "attrkey")
@@ -224,6 +227,27 @@ func checkC12(c CaseC12, info *Info) *Failure {
 		}
 	}
 	js := canon(c.Map)
+	// new-path members that are not valid UTF-8 (a Go program may use any string as a key) are kept as placeholders in the
+	// case and become raw bytes here: JSON, which the case is stored in, cannot carry them
+	rawBytes := false
+	for i := range c.Pairs {
+		if len(c.Pairs[i].New) == 0 {
+			continue
+		}
+		nw := append([]string(nil), c.Pairs[i].New...)
+		for j, seg := range nw {
+			switch seg {
+			case "BYTES-E9":
+				nw[j], rawBytes = "caf\xe9", true
+			case "BYTES-E8":
+				nw[j], rawBytes = "\xe8", true
+			case "BYTES-C3":
+				nw[j], rawBytes = "a\xc3", true // a truncated two-byte sequence
+			}
+		}
+		c.Pairs[i].New = nw
+	}
+	info.ClassIf(rawBytes, "a new key that is not valid UTF-8")
 	var pairs []string
 	malformed := false
 	for _, p := range c.Pairs {
@@ -318,7 +342,7 @@ func checkC12(c CaseC12, info *Info) *Failure {
 			return failf("content-mismatch", "source %s\npairs %q\n got  %s\n want %s", js, pairs, canon(gotc), canon(expected))
 		}
 		// the JSON wrapper agrees
-		if jb, jerr := mxj.Map(subject).Json(); jerr == nil {
+		if jb, jerr := mxj.Map(subject).Json(); jerr == nil && !rawBytes {
 			out, werr := j2x.JsonNewJson(jb, pairs...)
 			if werr != nil {
 				return failf("wrapper-mismatch", "j2x.JsonNewJson(%s, %q): %v", jb, pairs, werr)
@@ -336,7 +360,7 @@ func checkC12(c CaseC12, info *Info) *Failure {
 		}
 		// the XML wrapper on the encoded document: what it returns stands for the Map that NewMap gives on the decoded
 		// document (content, as Maps; that its text is the core encoder's text is C20's clause)
-		if c.FieldSep == "" && c.Unrelated == 0 && !hasEmptyKeyOrOdd(c.Map) && len(c.Map) == 1 && !isListVal(c.Map) {
+		if c.FieldSep == "" && c.Unrelated == 0 && !rawBytes && !hasEmptyKeyOrOdd(c.Map) && len(c.Map) == 1 && !isListVal(c.Map) {
 			if xb, xerr := mxj.Map(copyMap(c.Map)).Xml(); xerr == nil {
 				if xm, derr := mxj.NewMapXml(xb); derr == nil {
 					var wantDoc []byte
